@@ -286,7 +286,10 @@ def r01_5(ctx, A):
                     v = p.sym.rvalue_at(st['rv'], (k, i))
                     if v[0] == 'agg' and v[1].endswith('Option::Some'):
                         lt = dict(v[2][0][1][2]) if v[2][0][1][0] == 'agg' else {}
-                        first = lt.get('out') == ('param', f.local_name(3), 3) and lt.get('inp', ('x',))[0] == 'index' and lt['inp'][2] == ('const', 0)
+                        inp0 = lt.get('inp', ('x',))
+                        first_byte = (inp0[0] == 'index' and inp0[2] in (('const', 0), '[0]')) or \
+                            any(is_call(x, '::split_first') or is_call(x, '::first') for x in walk(inp0))
+                        first = lt.get('out') == ('param', f.local_name(3), 3) and first_byte
             for (k, bid, callee, args, t) in path_calls(p):
                 if isinstance(callee, str) and callee.endswith('::push') and args[1][0] == 'agg':
                     fd = dict(args[1][2])
@@ -303,8 +306,9 @@ def r01_5(ctx, A):
                                 l = dict(rr[0][2]).get('last')
                                 if l is not None and l[0] == 'agg' and l[1].endswith('Option::Some') and l[2][0][1][0] == 'agg':
                                     lt = dict(l[2][0][1][2])
-                                    src_ok = any(y[0] == 'index' or (y[0] == 'call' and 'Index' in str(y[1])) for y in walk(args[1])) and \
-                                        any(y[0] == 'agg' and y[1].endswith('RangeFrom') and dict(y[2]).get('start') == ('const', 1) for y in walk(args[1]))
+                                    src_ok = (any(y[0] == 'index' or (y[0] == 'call' and 'Index' in str(y[1])) for y in walk(args[1])) and
+                                              any(y[0] == 'agg' and y[1].endswith('RangeFrom') and dict(y[2]).get('start') == ('const', 1) for y in walk(args[1]))) or \
+                                        any(y[0] == 'field' and y[2] == '1' and any(is_call(z, '::split_first') for z in walk(y)) for y in walk(args[1]))
                                     rest = is_call(lt.get('out'), 'Output::zero') and any(y[0] == 'param' and y[2] == 2 for y in walk(lt.get('inp'))) and src_ok
                 if isinstance(callee, str) and callee.endswith('::push_empty'):
                     fin = args[1] == ('const', 1)
